@@ -327,6 +327,7 @@ pub fn join_scoped(scope: ScopeName, group: GroupName, actors: Vec<ActorCell>) {
     if actors.is_empty() {
         return;
     }
+    verif_point!("pg:join:after_filter");
 
     let mut stopped_relations = Vec::new();
     let (joined, listeners) = {
@@ -364,11 +365,13 @@ pub fn join_scoped(scope: ScopeName, group: GroupName, actors: Vec<ActorCell>) {
         (joined, group_state.listeners.clone())
     };
 
+    verif_point!("pg:join:after_entry");
     for (actor, relations) in stopped_relations {
         remove_empty_actor_relations(monitor, actor, &relations);
     }
 
     if joined.is_empty() {
+        verif_point!("pg:join:before_empty_cleanup");
         if let Occupied(entry) = monitor.map.entry(key) {
             if entry.get().members.is_empty() && entry.get().listeners.is_empty() {
                 entry.remove();
@@ -377,6 +380,7 @@ pub fn join_scoped(scope: ScopeName, group: GroupName, actors: Vec<ActorCell>) {
         return;
     }
 
+    verif_point!("pg:join:before_notify");
     for listener in &listeners {
         let _ = listener.send_supervisor_evt(SupervisionEvent::ProcessGroupChanged(
             GroupChangeMessage::Join(scope.to_owned(), group.clone(), joined.clone()),
@@ -431,6 +435,7 @@ pub fn leave_scoped(scope: ScopeName, group: GroupName, actors: Vec<ActorCell>) 
     let Some(listeners) = result else {
         return;
     };
+    verif_point!("pg:leave:before_notify");
 
     for listener in &listeners {
         let _ = listener.send_supervisor_evt(SupervisionEvent::ProcessGroupChanged(
@@ -451,9 +456,11 @@ pub(crate) fn leave_all(actor: ActorId) {
     let mut relations_guard = lock_relations(&relations);
     let memberships = std::mem::take(&mut relations_guard.memberships);
     drop(relations_guard);
+    verif_point!("pg:leave_all:after_take");
     let mut removal_events = Vec::with_capacity(memberships.len());
 
     for key in memberships {
+        verif_point!("pg:leave_all:per_key");
         if let Occupied(mut entry) = monitor.map.entry(key.clone()) {
             let group_state = entry.get_mut();
             if let Some(actor_cell) = group_state.members.remove(&actor) {
@@ -469,7 +476,9 @@ pub(crate) fn leave_all(actor: ActorId) {
         }
     }
 
+    verif_point!("pg:leave_all:before_remove_relations");
     remove_empty_actor_relations(monitor, actor, &relations);
+    verif_point!("pg:leave_all:before_notify");
 
     for (scope_and_group, cell, per_group_listeners) in &removal_events {
         for listener in per_group_listeners {
@@ -630,6 +639,7 @@ pub fn monitor(group: GroupName, actor: ActorCell) {
     let monitor = get_monitor();
     let actor_id = actor.get_id();
     let relations = get_or_create_actor_relations(monitor, actor_id);
+    verif_point!("pg:monitor:after_relations");
     let mut entry = monitor.map.entry(key.clone()).or_default();
     let mut relations_guard = lock_relations(&relations);
 
@@ -646,6 +656,7 @@ pub fn monitor(group: GroupName, actor: ActorCell) {
 
     drop(relations_guard);
     drop(entry);
+    verif_point!("pg:monitor:after_entry");
     if actor.get_status() >= ActorStatus::Stopping {
         if let Occupied(entry) = monitor.map.entry(key) {
             if entry.get().members.is_empty() && entry.get().listeners.is_empty() {
@@ -668,6 +679,7 @@ pub fn monitor_scope(scope: ScopeName, actor: ActorCell) {
     let monitor = get_monitor();
     let actor_id = actor.get_id();
     let relations = get_or_create_actor_relations(monitor, actor_id);
+    verif_point!("pg:monitor_scope:after_relations");
     let mut entry = monitor.world_listeners.entry(key.clone()).or_default();
     let mut relations_guard = lock_relations(&relations);
 
@@ -681,6 +693,7 @@ pub fn monitor_scope(scope: ScopeName, actor: ActorCell) {
 
     drop(relations_guard);
     drop(entry);
+    verif_point!("pg:monitor:after_entry");
     if actor.get_status() >= ActorStatus::Stopping {
         if let Occupied(entry) = monitor.world_listeners.entry(key) {
             if entry.get().is_empty() {
@@ -759,8 +772,10 @@ pub(crate) fn demonitor_all(actor: ActorId) {
     let group_monitors = std::mem::take(&mut relations_guard.group_monitors);
     let world_monitors = std::mem::take(&mut relations_guard.world_monitors);
     drop(relations_guard);
+    verif_point!("pg:demonitor_all:after_take");
 
     for key in group_monitors {
+        verif_point!("pg:demonitor_all:per_key");
         if let Occupied(mut entry) = monitor.map.entry(key) {
             let group_state = entry.get_mut();
             group_state
